@@ -799,6 +799,37 @@ def treeOrder (es : List Entry) : List Entry :=
 def groupClosed (es : List Entry) : Bool :=
   es.all fun e => (pathOf e).dropLast.isEmpty || (es.map pathOf).contains (pathOf e).dropLast
 
+/-! ## The files of a TSV save (`df_util.save_dataframes` / `load_dataframes`)
+
+`Schema2DF._initialize_output` starts from `create_empty_dataframes()`: a dictionary with the ten sheet names as keys,
+whatever the schema holds.  A file system location is an association list file name ↦ content. -/
+
+/-- keys of `create_empty_dataframes()` (= `DF_SUFFIXES`) -/
+def sheetNames : List Str :=
+  [['S', 't', 'r', 'u', 'c', 't', 'u', 'r', 'e'],
+   ['T', 'a', 'g'],
+   ['U', 'n', 'i', 't'],
+   ['U', 'n', 'i', 't', 'C', 'l', 'a', 's', 's'],
+   ['U', 'n', 'i', 't', 'M', 'o', 'd', 'i', 'f', 'i', 'e', 'r'],
+   ['V', 'a', 'l', 'u', 'e', 'C', 'l', 'a', 's', 's'],
+   ['A', 'n', 'n', 'o', 't', 'a', 't', 'i', 'o', 'n', 'P', 'r', 'o', 'p', 'e', 'r', 't', 'y'],
+   ['D', 'a', 't', 'a', 'P', 'r', 'o', 'p', 'e', 'r', 't', 'y'],
+   ['O', 'b', 'j', 'e', 'c', 't', 'P', 'r', 'o', 'p', 'e', 'r', 't', 'y'],
+   ['A', 't', 't', 'r', 'i', 'b', 'u', 't', 'e', 'P', 'r', 'o', 'p', 'e', 'r', 't', 'y']]
+
+/-- `f"{base}_{suffix}.tsv"` -/
+def tsvFileName (base suffix : Str) : Str := base ++ '_' :: suffix ++ ['.', 't', 's', 'v']
+
+/-- `save_dataframes`: every sheet of the dictionary is written with `open(filename, mode='w')` — empty or not —
+on top of whatever files are already at the location -/
+def saveFrames {α} (base : Str) : List (Str × α) → List (Str × α) → List (Str × α)
+  | files, [] => files
+  | files, (suf, sheet) :: r => saveFrames base (dictPut files (tsvFileName base suf) sheet) r
+
+/-- `load_dataframes`: one file per sheet name; a missing file (`OSError`) leaves the blank frame (`none`) -/
+def loadFrames {α} (base : Str) (files : List (Str × α)) : List (Str × Option α) :=
+  sheetNames.map fun suf => (suf, dictGet files (tsvFileName base suf))
+
 /-! ## Struct-sheet description escape of the TSV format -/
 
 /-- `description.replace("\n", "\\n")` (writer, prologue/epilogue rows) -/
